@@ -55,3 +55,48 @@ def run(ctx):
         ctx.oblige(len(outs) == len(ins) and outs, "C14.2", fn + ":one-direction-only",
                    "the delete path enumerates relationships in one direction more often than in the other: relationships pointing AT a deleted "
                    "node are not refused / not detached and dangle", b.file)
+
+    # ---- clause 3: MERGE never binds a node the same statement deleted --------------------------------
+    # The snapshot handed to a statement predates it, so a node deleted by an earlier clause of the same statement is still in
+    # `snapshot.nodes()`; only the statement overlay (`MergeOverlayState.deleted_nodes`) knows it is gone.  A MERGE that binds such a
+    # node creates its relationship onto a node that the same commit tombstones: a relationship whose endpoint no scan returns.
+    from ..mirutil import recv_field, switch_on
+    ctx.rule("C14.3", "every node a MERGE candidate enumeration yields has passed a `deleted_nodes` test of the statement overlay")
+    OVERLAY = "nervusdb_query::executor::merge_overlay::MergeOverlayState"
+    n3 = 0
+    for i, b in sorted(F.bodies.items()):
+        if not i.startswith("nervusdb_query::executor::merge_") or "::tests::" in i or b.root:
+            continue
+        if not any(OVERLAY in b.local_ty(l) for l in range(1, b.argc + 1)):
+            continue
+        enumerates = any(c.declared == "nervusdb_api::GraphSnapshot::nodes" for c in b.calls())
+        pushes = [c for c in b.calls() if c.name.endswith("Vec::<T, A>::push") or c.name.endswith("::push")]
+        if not enumerates or not pushes or "InternalNodeId" not in b.local_ty(0) and "u32" not in b.local_ty(0):
+            continue
+        guards = []
+        for g in b.calls():
+            if not g.name.endswith("::contains"):
+                continue
+            fld = recv_field(b, g)
+            if fld and fld[0] == "deleted_nodes" and g.target is not None:
+                sw = switch_on(b, g.target)
+                if sw:
+                    t_false = [tb for v, tb in sw[2] if v == 0]
+                    t_true = sw[3]
+                    if sw[1]:
+                        t_true, t_false = (t_false[0] if t_false else None), [t_true]
+                    guards.append((g, t_true))
+        for k, p in enumerate(sorted(pushes, key=lambda c: (c.line, c.bb))):
+            n3 += 1
+            ok = False
+            for g, t_true in guards:
+                if not b.dominates(g.bb, p.bb) or t_true is None:
+                    continue
+                doms = {x for x in range(len(b.blocks)) if b.dominates(x, g.bb)}
+                if p.bb not in b.reachable([t_true], avoid=doms):
+                    ok = True
+            ctx.instance("C14.3", "%s: candidate push #%d at %s filtered by deleted_nodes=%s" % (i.split("::")[-1], k, p.loc(), ok))
+            ctx.oblige(ok, "C14.3", "%s:candidate#%d-ignores-deleted_nodes" % (i, k),
+                       "a MERGE candidate is taken from the pre-statement snapshot without consulting the statement's own deletions: "
+                       "MERGE after DELETE in one statement binds the deleted node and creates a relationship onto it (dangling after commit)", p.loc())
+    ctx.floor("C14.3", "MERGE candidate pushes", n3, 2)
